@@ -231,8 +231,7 @@ theorem sliceStartEnd_full (n b : Int) (hn : 0 < n) (hb : n ≤ b) : sliceStartE
   unfold sliceStartEnd
   have h1 : ¬ ((0 : Int) ≥ n) := by omega
   have h3 : ¬ (b < 0) := by omega
-  have h4 : (0 : Int) + b ≥ n := by omega
-  simp [h1, h3, h4]
+  simp [h1, h3]
   intro h
   omega
 
@@ -457,7 +456,7 @@ theorem d3_only_in_the_vault_sweeps :
 
 set_option maxRecDepth 200000 in
 /-- **Pins**: exactly the twelve Begin/EndBlockers of the ten DeFi modules and exactly the seventeen wrapper sites;
-194 unwrapped + 226 wrapped entries on the pinned tree — stated as lower bounds because a repair of D3 legitimately
+195 unwrapped + 205 wrapped entries on the pinned tree — stated as lower bounds because a repair of D3 legitimately
 removes two of them — and spot entries, so that an extractor that returns little or nothing fails here. -/
 theorem table_pins :
     blockers.length = 12 ∧ units.length = 17 ∧ unwrapped.length ≥ 150 ∧ wrappedEntries.length ≥ 150 ∧
